@@ -187,3 +187,22 @@ func Exec(home string, o Opts, cmd Runner) (res Result) {
 	res.Stdout = out.String()
 	return res
 }
+
+// RealContext returns klog's own application context (real file I/O, real parser selection) for direct calls
+// of context operations such as ReconcileFile; the clock is the harness' (o.Now).
+func RealContext(home string, o Opts) app.Context {
+	n := o.NumCpus
+	if n == 0 {
+		n = 1
+	}
+	cfg, cErr := app.NewConfig(
+		app.FromDeterminedValues{NumCpus: n},
+		app.FromEnvVars{GetVar: func(k string) string { return o.Env[k] }},
+		app.FromConfigFile{FileContents: o.ConfigFile},
+	)
+	if cErr != nil {
+		panic(cErr)
+	}
+	opts := o
+	return &wrapCtx{Context: app.NewContext(app.NewFileOrPanic(home), app.Meta{Version: "v0"}, tf.NewStyler(cfg.ColourScheme.Value()), cfg), o: &opts, out: &strings.Builder{}}
+}
